@@ -13,7 +13,8 @@ PStep(ev) ==
 
 PMatches(ev) ==
   IF ev.a = "peek" THEN obs'.a = "peek" /\ <<ev.obs.n, ev.obs.data>> \in obs'.exp.peek_in
-  ELSE Matches(ev)
+  ELSE /\ (ev.a = "deliver" /\ Len(wire) = 0) \/ (\A k \in DOMAIN obs'.exp : k \in DOMAIN ev.obs)
+       /\ Matches(ev)
 
 PTraceInit == TraceInit /\ held = FALSE
 
